@@ -31,7 +31,7 @@ static void work_a(long lo, long hi, struct res *r, void *arg) {
             polyseed_data *d = NULL;
             int st = polyseed_load(buf, &d);
             r->cases++; r->calls++;
-            int want = (k == expect) ? (supported ? R_OK : R_UNSUPPORTED) : R_CHECKSUM;
+            int want = (k == expect) ? (supported ? ST_OK : ST_UNSUPPORTED) : ST_CHECKSUM;
             if (st == POLYSEED_OK) polyseed_free(d);
             if (st != want) {
                 char key[100], rep[100]; snprintf(key, sizeof key, "c02:mul:p%d", p); sprintf(rep, "case a %d %u %u", p, v, k);
@@ -217,7 +217,7 @@ static void work_e(long lo, long hi, struct res *r, void *arg) {
         buf[30] = kchk & 0xff; buf[31] = 0x70 | (kchk >> 8);
         polyseed_data *d = NULL; int st = polyseed_load(buf, &d); r->cases++; r->calls++;
         if (st == POLYSEED_OK) polyseed_free(d);
-        int want = (kchk == good) ? R_OK : R_CHECKSUM;
+        int want = (kchk == good) ? ST_OK : ST_CHECKSUM;
         r->digest ^= mix64(x, st);
         if (st != want) { char rep[120], h[65]; hex(buf, 32, h); sprintf(rep, "case e %s", h); res_viol(r, "c02:load-check", rep, "load with check value %u (correct %u) returned %d", kchk, good, st); }
         else { r->validated++; r->cls[st == POLYSEED_OK ? 1 : 0]++; }
